@@ -130,6 +130,7 @@ func (s *supervisor) processSchedule(r *processorRequestSchedule) {
 	defer s.mu.Unlock()
 
 	n := s.nodeByDN(r.dn)
+	n.running = true
 	go func() {
 		if !s.propagatePanic {
 			defer func() {
@@ -163,6 +164,7 @@ func (s *supervisor) processDied(r *processorRequestDied) {
 
 	// Okay, so a Runnable has quit. What now?
 	n := s.nodeByDN(r.dn)
+	n.running = false
 	ctx := n.ctx
 
 	// Simple case: it was marked as Done and quit with no error.
@@ -308,7 +310,8 @@ func (s *supervisor) processGC() {
 		curReady := false
 		switch cur.state {
 		case nodeStateDone:
-			curReady = true
+			// DONE is signaled by the runnable while it is still running: it is restartable only once it returned.
+			curReady = !cur.running
 		case nodeStateCanceled:
 			curReady = true
 		case nodeStateDead:
